@@ -664,6 +664,34 @@ def e2g(fb, rep):
                 else:
                     rep.violation(R, "thread-heap-not-child|%s" % b.id, "%s creates a thread context whose heap does not come from the parent's new_child_gc" % b.id, c.where())
     rep.floor(R, "thread context constructions", n, 2)
+    # (after finding 35) the stack limit has the same provenance: a thread created *from* a thread (Thread::new_thread: host
+    # new_thread, std.thread.spawn / new_thread) gets its parent's limit.  A fresh Stack starts at VmIndex::MAX.
+    nt = fb.body("gluon_vm::thread::Thread::new_thread")
+    if nt is None:
+        rep.anchor_lost(R, "Thread::new_thread")
+    else:
+        sets = [c for c in nt.calls() if c.res.endswith("stack::Stack::set_max_stack_size")]
+        ok = False
+        for c in sets:
+            src = flow.sources(nt, c.args[1], depth=12)
+            from_parent = flow.has_call(src, lambda x: x.endswith("stack::Stack::max_stack_size")) or ("field", "gluon_vm::stack::Stack", "max_stack_size") in src
+            if from_parent and ("arg", 1) in src and not any(x[0] == "const" for x in src):
+                ok = True
+        if ok:
+            rep.ok(R, "Thread::new_thread: the child's stack limit is the parent's (set_max_stack_size(<self's stack>.max_stack_size()))")
+        else:
+            rep.violation(R, "child-stack-limit-not-inherited", "Thread::new_thread creates the child's stack without giving it the parent's max_stack_size (a fresh Stack is unlimited): "
+                          "a limited thread's descendants (spawn, new_thread) escape its stack limit", nt.where())
+    ST = "gluon_vm::stack::Stack"
+    for b in fb.bodies.values():
+        if b.crate.name != "gluon_vm":
+            continue
+        for bb, j, rv, line, kind in flow.field_writes(b, ST, "max_stack_size"):
+            if kind in ("assign", "refmut", "rawptr"):
+                if b.id.endswith("Stack::set_max_stack_size"):
+                    rep.ok(R, "Stack::set_max_stack_size writes the limit")
+                else:
+                    rep.violation(R, "stack-limit-writer|%s" % b.id, "%s writes Stack.max_stack_size" % b.id, "%s:%s" % (b.file, line))
 
 
 def run(fb, rep, tier, cfg):
